@@ -10,12 +10,20 @@
    The core (C15_lookup): looking a move text up among the texts of the legal moves finds exactly the move that produced
    it — this is C14 (uniqueness) and C01 (the legal-move list).  C15_export_layout: the exported text is the seven tags, a
    blank line, the numbered move list (C13 layout) and the result token.
-   PARTIAL: the two regular-expression passes that split the PGN text into tags, move tokens and result, and the line
-   wrapping (textwrap), are outside the model; that they return exactly san_list and the result token of the exported
-   text is decided by the differential run (export -> import round trip of every explored game in every ending mode,
-   on the real library, plus the model's replay of the same tokens). *)
+   TEXT LEVEL (C15_text_roundtrip, C15_export_import): the importer's four regular-expression passes are modelled on the
+   bytes (model/Pgn.v) and PROVED to read an exported game back: for EVERY game from the standard start (any finite action
+   sequence) and EVERY text obtained from the export by turning any set of blanks of the move list into line ends (every
+   possible line wrapping; W ranges over all of them), the blank-line split returns exactly the move text, the move
+   pattern finds exactly the SAN texts in order (a complete sweep over all 933,126 SAN texts shows each is matched whole,
+   leftmost-first, and contains no result token; move numbers, dots, blanks and line ends are barriers no match crosses),
+   the result pattern finds exactly the result token, the tag pattern leaves the exported Result value; so the import
+   returns the same moves, positions, move properties, counters, result tag and status (pending offer excepted).
+   Outside the model: the line-wrapping crate (textwrap) is represented by the universally quantified W — that the library's
+   export is such a W of the model's move list is checked on every explored game — and the regex crate's machinery (that
+   it computes the leftmost-first match the model defines is checked by predicting, for every exported, re-wrapped,
+   mutated and hand-assembled text, the import's outcome, moves, status, position and tag). *)
 Require Import LC.model.Prims LC.model.Board LC.model.Text LC.model.San LC.model.Game LC.spec.Chess LC.spec.TextSpec LC.proofs.MoveInv LC.proofs.C05Proofs
-  LC.proofs.C12Proofs LC.proofs.C11Proofs LC.proofs.C13Proofs LC.proofs.Reach LC.proofs.C15Proofs.
+  LC.proofs.C12Proofs LC.proofs.C11Proofs LC.proofs.C13Proofs LC.proofs.Reach LC.proofs.C15Proofs LC.model.Pgn LC.proofs.PgnMatch LC.proofs.PgnText LC.proofs.PgnImport.
 Open Scope N_scope.
 Theorem C15_roundtrip : forall K b0 g0 acts, Good K b0 -> game_from_board b0 = Ok g0 -> Forall wf_action acts ->
   let g := run K g0 acts in
@@ -32,3 +40,22 @@ Theorem C15_export_layout : forall g p0, hd_error (g_positions g) = Some p0 ->
 Proof.
   intros g p0 H. unfold as_pgn_unwrapped, history_string. rewrite H. cbn [unwrap_o bind]. rewrite history_layout. reflexivity.
 Qed.
+Theorem C15_text_roundtrip : forall K acts, Forall wf_action acts ->
+  exists g0, default_game K = Ok g0 /\
+  let g := run K g0 acts in
+  exists hs, history_string g = Ok hs /\
+  forall W, Forall2 (Rb blank) W (trim_end hs) ->
+  exists g', from_pgn_text K (default_tags (g_tag g) ++ [10] ++ W ++ [32] ++ print_rtag (g_tag g)) = Ok (g', print_rtag (g_tag g)) /\
+    same_core g' g /\ g_tag g' = g_tag g /\
+    (g_status g' = g_status g \/ (g_status g' = GOngoing /\ exists c, g_status g = GDrawOffered c)).
+Proof. exact pgn_text_roundtrip. Qed.
+Theorem C15_export_import : forall K acts, Forall wf_action acts ->
+  exists g0, default_game K = Ok g0 /\
+  let g := run K g0 acts in
+  exists txt g', as_pgn_unwrapped g = Ok txt /\ from_pgn_text K txt = Ok (g', print_rtag (g_tag g)) /\
+    same_core g' g /\ g_tag g' = g_tag g /\
+    (g_status g' = g_status g \/ (g_status g' = GOngoing /\ exists c, g_status g = GDrawOffered c)).
+Proof. exact pgn_export_import. Qed.
+(* a blank of the move text may be rendered as a blank or as a line end; everything else is kept *)
+Theorem C15_rewrap_relation : forall a b, Rb blank a b <-> a = b \/ ((a = 32 \/ a = 10) /\ (b = 32 \/ b = 10)).
+Proof. exact Rb_blank_spec. Qed.
